@@ -212,9 +212,9 @@ struct Ad
     {
         using ms = std::chrono::milliseconds;
         if constexpr (ck == CK::utlru)
-            return C(ms(g.ttl_ms), (size_t)g.cap, g.lf);
+            return C(ms(g.ttl_big_ms ? g.ttl_big_ms : (int64_t)g.ttl_ms), (size_t)g.cap, g.lf);
         else if constexpr (ck == CK::ut_map || ck == CK::ut_set)
-            return C(ms(g.ttl_ms));
+            return C(ms(g.ttl_big_ms ? g.ttl_big_ms : (int64_t)g.ttl_ms));
         else if constexpr (ck == CK::lfuda)
             return C((size_t)g.cap, ms(g.tick_ms), g.ratio, g.lf);
         else
@@ -548,7 +548,7 @@ struct Ad
                 break;
             case OpK::UpdateTtl:
                 if constexpr (T.has_update_ttl)
-                    c.update_ttl(ms(o.ttl[0]));
+                    c.update_ttl(ms(o.ttl_big ? o.ttl_big : (int64_t)o.ttl[0]));
                 break;
             case OpK::Clear:
                 if constexpr (T.has_clear)
@@ -751,6 +751,27 @@ struct Ad
                     s << " t" << pos_in(c.m_ttl_list, e.m_ttl_position) << " e" << tc(e.m_expire_time);
                 }
                 s << ")";
+            }
+            // free slots: the order-list iterator they still hold (-1 = never set).  The pinned code never
+            // reads it (it is re-assigned on insert), but a changed implementation that relies on a stale one must
+            // not have such states merged with sound ones (costs ~17% more states on utlru).
+            {
+                bool infree = false;
+                int  pos    = 0;
+                for (auto it = lst.begin(); it != lst.end(); ++it, ++pos)
+                {
+                    if (it == end)
+                        infree = true;
+                    if (!infree || *it >= c.m_elements.size())
+                        continue;
+                    auto& e = c.m_elements[*it];
+                    int   p;
+                    if constexpr (ck == CK::mru)
+                        p = pos_in(lst, e.m_mru_position);
+                    else
+                        p = pos_in(lst, e.m_lru_position);
+                    s << " F" << rn(*it) << "(l" << p << ")";
+                }
             }
         }
         else if constexpr (ck == CK::rr)
